@@ -5,7 +5,7 @@
    Conventions of the model (Model/C04_Dens.v): a parameter is a list of length 1 (scalar, broadcast by
    `bc n`) or n; `fixed` selects the repaired (true) or the unrepaired (false) formula of the defects
    that have a fix proposal; lnGamma enters through its value G = Gamma(shape) > 0. *)
-From CV Require Import Base.Tac Base.Cmp Model.C04_Dens Model.C04_Cdf Proofs.C04_Cdf Proofs.C04_Cdf2 Proofs.C04_Beta Proofs.C04_Lim Proofs.C04_InvGamma Proofs.C04_Refine Proofs.C04_GammaLaw Proofs.C04_Dens Proofs.C04_Gauss Proofs.C04_Norm Proofs.C04_More Proofs.C04_Sym Proofs.C04_Box.
+From CV Require Import Base.Tac Base.Cmp Model.C04_Dens Model.C04_Cdf Proofs.C04_Cdf Proofs.C04_Cdf2 Proofs.C04_Beta Proofs.C04_Lim Proofs.C04_InvGamma Proofs.C04_Refine Proofs.C04_GammaLaw Proofs.C04_Dens Proofs.C04_Gauss Proofs.C04_Norm Proofs.C04_More Proofs.C04_Sym Proofs.C04_Box Proofs.C04_GaussInt Proofs.C04_BoxNormal Proofs.C04_GaussDoc.
 From Coq Require Import QArith Reals Lra.
 From Coquelicot Require Import Coquelicot.
 Local Open Scope R_scope.
@@ -297,6 +297,40 @@ Theorem C04_gaussian_diag_documented : forall (f : gform) (V mean x : list R),
 Proof. exact gauss_diag_ln_pdf. Qed.
 Print Assumptions C04_gaussian_diag_documented.
 
+(* SCALAR storage (cov = v, prec = 1/v, sqrtcov = sqrt v, sqrtprec = 1/sqrt v as one number, any dimension): ln of the documented density *)
+Theorem C04_gaussian_scalar_documented : forall (f : gform) (v : R) (mean x : list R),
+  (length mean = 1%nat \/ length mean = length x) -> 0 < v ->
+  gauss_diag_logpdf f true (length x) (gparam f v :: nil) mean x = ln (normal_pdf mean (sqrt v :: nil) x).
+Proof. exact gauss_scalar_ln_pdf. Qed.
+Print Assumptions C04_gaussian_scalar_documented.
+
+(* DENSE (and sparse full) matrices, cov / prec / sqrtcov / sqrtprec: the canonical form the code evaluates, with logdet = ln det(Sigma)
+   [covariance-type inputs] or - ln det(precision) [precision-type inputs] and quad = d^T Sigma^-1 d, is ln of the documented multivariate
+   normal density mvn_pdf n dcov quad = (2 pi)^(-n/2) det(Sigma)^(-1/2) exp(-quad/2); which (dcov, quad) belong to a matrix M in a given
+   parameterisation is what the exact certificate states (C04_gaussian_dense_cert_sound; the four readings denote one distribution by
+   Props/C04_mc.v, and C04_list_model_quad_refinement links the list functions to the matrix statement) *)
+Theorem C04_gaussian_dense_documented : forall (n : nat) (dcov quad : R), 0 < dcov ->
+  gauss_canon n (ln dcov) quad = ln (mvn_pdf n dcov quad).
+Proof. exact gauss_dense_ln_pdf. Qed.
+Print Assumptions C04_gaussian_dense_documented.
+
+Theorem C04_gaussian_dense_documented_prec : forall (n : nat) (dprec dcov quad : R), 0 < dprec -> dprec * dcov = 1 ->
+  gauss_canon n (- ln dprec) quad = ln (mvn_pdf n dcov quad).
+Proof. exact gauss_dense_ln_pdf_prec. Qed.
+Print Assumptions C04_gaussian_dense_documented_prec.
+
+Theorem C04_gaussian_dense_cert_sound : forall (f : gform) (n : nat) (M : list (list Q)) (y d : list Q) (dcov quad : Q) (r : nat),
+  gauss_dense_cert f n M y d dcov quad r = true ->
+  r = n /\ (0 < dcov)%Q /\
+  match f with
+  | FCov => ql_eqb (qmv M y) d = true /\ (qdet M == dcov)%Q /\ (qdotq d y == quad)%Q
+  | FPrec => (qdet M * dcov == 1)%Q /\ (qdotq d (qmv M d) == quad)%Q
+  | FSqrtcov => ql_eqb (qmv (qmm n M (qtr n M)) y) d = true /\ (qdet (qmm n M (qtr n M)) == dcov)%Q /\ (qdotq d y == quad)%Q
+  | FSqrtprec => (qdet (qmm n M (qtr n M)) * dcov == 1)%Q /\ (qdotq (qmv M d) (qmv M d) == quad)%Q
+  end.
+Proof. exact gauss_dense_cert_sound. Qed.
+Print Assumptions C04_gaussian_dense_cert_sound.
+
 (* sqrtcov = R as a full matrix: the code forms R R^T, the docstring says R^T R; executable witness
    (R = [[1,0],[1,1]], x - mean = [1,0]: quadratic forms 2 and 1); for symmetric R the two coincide *)
 Theorem C04_sqrtcov_convention_refuted :
@@ -432,16 +466,14 @@ Proof. split; cbn; discriminate. Qed.
 Print Assumptions C04_gmrf_rank_refuted.
 
 (* ---------- normalisation ---------- *)
-(* PARTIAL: "the density integrates to one over the support" is proved for Uniform (per coordinate), Laplace
-   (mass of [mu-T, mu+T] is 1 - exp(-T/b), limit 1) and Cauchy (mass of [l-T, l+T] is (2/pi) atan(T/s), limit 1),
-   each per coordinate (the multi-dimensional densities are products of these factors; Fubini is not formalised).
-   Gamma with INTEGER shape is proved in full (C04_gamma_int_normalised).
-   Beta with INTEGER shapes is proved in full (C04_beta_int_normalised); Lognormal is reduced to Normal (C04_lognormal_mass,
-   C04_lognormal_normalised_given_normal).
-   NOT proved: Normal/Gaussian, Gamma / Beta / InverseGamma with non-integer shapes (no Gaussian integral / Gamma-function theory in
-   the installed libraries), and SmoothedLaplace (whose documented density is in fact not normalised for beta > 0);
-   for those the theorems above say "equals the documented formula" and the harness's oracle compares with
-   independent references. *)
+(* PARTIAL (what remains after the third deepening round): "the density integrates to one over the support" is now proved, in EVERY
+   dimension with scalar-broadcast or vector parameters, for Uniform, Laplace, Cauchy, Normal (= Gaussian with scalar / vector / diagonal
+   covariance in all four parameterisations, through C04_gaussian_diag_documented), Lognormal with diagonal covariance, and Gamma / Beta /
+   InverseGamma with INTEGER shapes (C04_*_normalised_nd above; the Gaussian integral is C04_gaussian_integral).
+   NOT proved: Gamma / Beta / InverseGamma with non-integer shapes (no Gamma-function theory in the installed libraries), the Gaussian with a
+   DENSE (non-diagonal) covariance (needs the n-dimensional linear change of variables, not available in Coquelicot; the mathcomp
+   identities of Props/C04_mc.v reduce its density to the diagonal one only algebraically), GMRF/LMRF/CMRF (improper or non-product), and
+   SmoothedLaplace (whose documented density is in fact not normalised for beta > 0).  The per-coordinate statements below are kept: *)
 Theorem C04_normalised_partial :
   (forall l h : R, l < h -> is_RInt (fun _ => uniform_pdf1 (l, h)) l h 1) /\
   (forall mu b T : R, 0 < b -> 0 <= T -> is_RInt (laplace_dens mu b) (mu - T) (mu + T) (1 - exp (- T / b))) /\
@@ -561,6 +593,49 @@ Theorem C04_lognormal_box_mass : forall (V mean : list R) (v : R), 0 <= v ->
                          (zip2 (bc (length V) mean) (map sqrt V)))).
 Proof. exact lognormal_box_mass. Qed.
 Print Assumptions C04_lognormal_box_mass.
+
+(* ---------- THE GAUSSIAN INTEGRAL and the normalisation of Normal / diagonal Gaussian / Lognormal (FULL, no hypothesis) ----------
+   proved from Coquelicot's parametric integrals (Proofs/C04_GaussInt.v): (int_0^x e^(-t^2))^2 + int_0^1 e^(-x^2(1+t^2))/(1+t^2) = pi/4 *)
+Theorem C04_gaussian_integral : is_lim (fun x => RInt (fun t => exp (- (t * t))) 0 x) p_infty (sqrt PI / 2).
+Proof. exact gI_lim. Qed.
+Print Assumptions C04_gaussian_integral.
+
+Theorem C04_normal_cdf_limits : forall m s : R, 0 < s ->
+  is_lim (fun u => normal_cdf1 (m, s, u)) p_infty 1 /\ is_lim (fun u => normal_cdf1 (m, s, u)) m_infty 0.
+Proof. exact normal_cdf1_limits. Qed.
+Print Assumptions C04_normal_cdf_limits.
+
+Theorem C04_normal_normalised : forall m s : R, 0 < s ->
+  is_lim (fun T => RInt (fun t => normal_pdf1 (m, s, t)) (m - T) (m + T)) p_infty 1.
+Proof. exact normal_normalised. Qed.
+Print Assumptions C04_normal_normalised.
+
+(* every dimension, scalar-broadcast or vector mean / std: the mass (C04_normal_box_mass) of prod [mean_i - T, mean_i + T] tends to 1 *)
+Theorem C04_normal_normalised_nd : forall (mean std : list R) (n : nat), Forall (fun s => 0 < s) std ->
+  is_lim (fun T => rprod (map (ls_mass1 normal_cdf1)
+                              (combine (zip2 (bc n mean) (bc n std)) (centred_box2 T (zip2 (bc n mean) (bc n std))))))
+         p_infty 1.
+Proof. exact normal_centred_normalised. Qed.
+Print Assumptions C04_normal_normalised_nd.
+
+Theorem C04_lognormal_normalised : forall m s : R, 0 < s ->
+  is_lim (fun v => RInt (lognormal_pdf1 m s) (exp (- v)) (exp v)) p_infty 1.
+Proof. exact lognormal_normalised. Qed.
+Print Assumptions C04_lognormal_normalised.
+
+(* the mass (C04_lognormal_box_mass) of prod [exp(-v), exp(v)] tends to 1, every dimension *)
+Theorem C04_lognormal_normalised_nd : forall V mean : list R, Forall (fun c => 0 < c) V ->
+  is_lim (fun v => rprod (map (fun p => normal_cdf1 (fst p, snd p, v) - normal_cdf1 (fst p, snd p, - v))
+                              (zip2 (bc (length V) mean) (map sqrt V)))) p_infty 1.
+Proof. exact lognormal_box_normalised. Qed.
+Print Assumptions C04_lognormal_normalised_nd.
+
+(* the oracle law of C04_normal_cdf_erf_law is satisfiable: erf_R z = 2/sqrt(pi) int_0^z exp(-t^2) satisfies it, tends to 1, is odd *)
+Theorem C04_erf_law_satisfiable :
+  (forall z, erf_R z = 2 / sqrt PI * RInt (fun t => exp (- (t * t))) 0 z) /\ is_lim erf_R p_infty 1 /\
+  (forall m s x, 0 < s -> normal_cdf1 (m, s, x) = / 2 * (1 + erf_R ((x - m) / (s * sqrt 2)))).
+Proof. split; [intros z; reflexivity|]. split; [exact erf_R_lim_p | exact normal_cdf1_erf]. Qed.
+Print Assumptions C04_erf_law_satisfiable.
 
 (* ---------- non-vacuity: the hypotheses are satisfiable and the formulas are the expected numbers ---------- *)
 Example C04_nonvacuous :
